@@ -21,7 +21,7 @@ use std::sync::OnceLock;
 pub struct C18;
 pub static P: C18 = C18;
 
-const BITS: [u32; 3] = [1024, 2048, 4096];
+const BITS: [u32; 4] = [1024, 2048, 3072, 4096];
 const APP_URI: &str = "urn:verif:c18";
 const HOST: &str = "verifhost";
 
@@ -127,6 +127,53 @@ impl Prop for C18 {
             }}}}}} }}}}}}
             return;
         }
+        // Small-scope enumeration (every tier): (A) every flag / directory / file / validity / host / URI
+        // combination with the (policy, key size) pairs cycling; (B) for the rows that reach the key-length
+        // check, every policy × key size.  A `None`/`Unknown` row panics by design and ends its case.
+        let mut k = 0usize;
+        let mut push = |out: &mut Vec<String>, line: String, ends_case: bool| {
+            if k % 16 == 0 {
+                out.push("reset".to_string());
+            }
+            k += 1;
+            out.push(line);
+            if ends_case {
+                k = 0;
+            }
+        };
+        let mut combos: Vec<(&str, u32)> = Vec::new();
+        for pol in POLICIES {
+            for bits in BITS {
+                combos.push((pol, bits));
+            }
+        }
+        let mut c = 0usize;
+        for tu in 0..2u8 { for sv in 0..2u8 { for ct in 0..2u8 { for rd in 0..2u8 { for ir in 0..2u8 { for td in 0..2u8 {
+        for tf in 0..4u8 { for tm in 0..3u8 { for ho in 0..4u8 { for ur in 0..3u8 {
+            if (ir == 1 && rd == 0) || (tf != 0 && td == 0) {
+                continue;
+            }
+            let (pol, bits) = combos[c % combos.len()];
+            c += 1;
+            let ends = pol == "none" || pol == "unknown";
+            let line = row(tu, sv, ct, rd, ir, td, tf, pol, bits, tm, ho, ur);
+            match c % 4 {
+                // `validate_application_instance_cert` on its own
+                1 => push(out, line.replacen("val", "vonly", 1), ends),
+                // the store asked twice, flags changed in between (all 8 second flag triples cycle)
+                2 | 3 => {
+                    let f = (c / 4) % 8;
+                    push(out, format!("{} {} {} {}", line.replacen("val", "val2", 1), f & 1, (f >> 1) & 1, (f >> 2) & 1), ends);
+                }
+                _ => push(out, line, ends),
+            }
+        }}}} }}}}}}
+        for (tu, tf) in [(0u8, 1u8), (1, 0), (1, 1)] {
+            for (pol, bits) in &combos { for sv in 0..2u8 { for tm in 0..3u8 {
+                let ends = *pol == "none" || *pol == "unknown";
+                push(out, row(tu, sv, 1, 1, 0, 1, tf, pol, *bits, tm, 1, 1), ends);
+            }}}
+        }
         for _ in 0..n {
             out.push("reset".to_string());
             for i in 0..4 {
@@ -169,7 +216,15 @@ impl Runner for R {
         let bad = || ("bad-op".to_string(), Verdict::Ok);
         match toks {
             ["reset"] => ("ok".to_string(), Verdict::Ok),
-            ["val", tu, sv, ct, rd, ir, td, tf, pol, bits, tm, ho, ur] => {
+            [kind @ ("val" | "vonly" | "val2"), tu, sv, ct, rd, ir, td, tf, pol, bits, tm, ho, ur, rest @ ..] => {
+                let second: Option<(bool, bool, bool)> = match (*kind, rest) {
+                    ("val2", [a, b2, c]) => match (*a, *b2, *c) {
+                        ("0" | "1", "0" | "1", "0" | "1") => Some((*a == "1", *b2 == "1", *c == "1")),
+                        _ => return bad(),
+                    },
+                    ("val" | "vonly", []) => None,
+                    _ => return bad(),
+                };
                 let flag = |s: &str| match s {
                     "0" => Some(false),
                     "1" => Some(true),
@@ -231,17 +286,56 @@ impl Runner for R {
 
                 // --- the real call (a panic for None/Unknown unwinds to main.rs → `panic`)
                 let guard = CleanUp(dir.clone());
-                let status = store.validate_or_reject_application_instance_cert(cert, policy, host, uri);
+                let mut status = if *kind == "vonly" {
+                    store.validate_application_instance_cert(cert, policy, host, uri)
+                } else {
+                    store.validate_or_reject_application_instance_cert(cert, policy, host, uri)
+                };
+                let first = status;
+                let rej_mid = rej_path.exists();
+                let (mut sv, mut ct) = (sv, ct);
+                if let Some((tu2, sv2, ct2)) = second {
+                    // the same store is asked again about the same certificate, with the flags changed
+                    store.set_trust_unknown_certs(tu2);
+                    store.set_skip_verify_certs(sv2);
+                    store.set_check_time(ct2);
+                    sv = sv2;
+                    ct = ct2;
+                    status = store.validate_or_reject_application_instance_cert(cert, policy, host, uri);
+                }
                 let rej_after = rej_path.exists();
                 let tr_after = tr_path.exists();
                 let trusted_bytes = std::fs::read(&tr_path).ok();
                 drop(guard);
 
-                let res = format!("ok {} rej={} tr={}", status.name(), b(rej_after), b(tr_after));
+                let res = if second.is_some() {
+                    format!("ok {} then ok {} rej={} tr={}", first.name(), status.name(), b(rej_after), b(tr_after))
+                } else {
+                    format!("ok {} rej={} tr={}", status.name(), b(rej_after), b(tr_after))
+                };
 
                 // --- the property, on the implementation's answer and the directories alone
                 let class = format!("tu{}sv{}ct{}-rd{}ir{}td{}tf{}-{}-{}-tm{}ho{}ur{}", b(tu), b(sv), b(ct), b(rd), b(ir), b(td), tf, pol, bits, tm, ho, ur);
-                let v = if status.is_good() {
+                let v = if second.is_some() {
+                    // second answer, judged on the state the first call left behind
+                    if status.is_good() {
+                        let key_ok = part7_key_ok(pol, bits) == Some(true);
+                        let checks_ok = sv || ((!ct || tm == 0) && (ho == 0 || ho == 1) && (ur == 0 || ur == 1));
+                        if rej_mid {
+                            Verdict::fail("accepted_only_if", &class, "accepted although the first call had put it in the rejected store")
+                        } else if trusted_bytes.as_deref() != Some(&der[..]) {
+                            Verdict::fail("accepted_only_if", &class, "accepted but the trusted copy is not byte-identical")
+                        } else if !key_ok || !checks_ok {
+                            Verdict::fail("accepted_only_if", &class, "accepted although key length / validity / host / URI checks should fail")
+                        } else if rej_after {
+                            Verdict::fail("accepted_never_rejected", &class, "accepted certificate is in the rejected store")
+                        } else {
+                            Verdict::Ok
+                        }
+                    } else {
+                        Verdict::Ok
+                    }
+                } else if status.is_good() {
                     let trusted_ok = tf == 1 || (tf == 0 && tu);
                     let key_ok = part7_key_ok(pol, bits) == Some(true);
                     let checks_ok = sv || ((!ct || tm == 0) && (ho == 0 || ho == 1) && (ur == 0 || ur == 1));
@@ -274,7 +368,7 @@ impl Runner for R {
     /// `None`/`Unknown` have no key lengths (`panic!("Invalid policy")`); the callers never pass them
     fn on_panic(&self, toks: &[&str]) -> Verdict {
         match toks {
-            ["val", _, _, _, _, _, _, _, "none" | "unknown", ..] => Verdict::Ok,
+            ["val" | "vonly" | "val2", _, _, _, _, _, _, _, "none" | "unknown", ..] => Verdict::Ok,
             _ => Verdict::fail("no_panic", "-", "implementation panicked"),
         }
     }
